@@ -9,6 +9,7 @@ WT=$(mktemp -d /tmp/seedwt.XXXXXX); rmdir "$WT"
 git -C /repo worktree add -q --detach "$WT" HEAD || exit 3
 trap 'git -C /repo worktree remove --force "$WT" >/dev/null 2>&1' EXIT
 if ! git -C "$WT" apply "$D/patch.diff"; then echo "SEEDED $P $(basename $D): patch does not apply"; exit 3; fi
+export NUMBA_CACHE_DIR="$WT.numba"    # concurrent demos writing numba's on-disk cache next to the sources fail spuriously
 if [ -f "$D/demo.py" ]; then
   (cd "$WT" && PYTHONPATH="$WT" timeout 600 /venv/bin/python -W ignore "$D/demo.py" >/dev/null 2>&1); dc=$?
   (cd /tmp && PYTHONPATH=/repo timeout 600 /venv/bin/python -W ignore "$D/demo.py" >/dev/null 2>&1); du=$?
@@ -19,4 +20,4 @@ grep -c '^VIOLATION' "$WT.log" | sed 's/^/violations: /'
 grep '^VIOLATION' "$WT.log" | head -3
 tail -1 "$WT.log"
 echo "SEEDED $P $(basename $D): check exit=$rc"
-rm -rf "$WT.log" "$WT.ev"
+rm -rf "$WT.log" "$WT.ev" "$WT.numba"
